@@ -42,7 +42,7 @@ def axes(tier, seed):
     return dict(grids=[dict(shape=g, alphabet=a, images=len(a) ** (g[0] * g[1])) for g, a in grids(tier)],
                 letters={k: (None if v != v else v) for k, v in L.items()}, flood=FLOOD, seeds=SEEDS,
                 variants=["constant bkg=0 rms=1", "im=0 everywhere, signal carried by bkg (exact zeros inside islands)",
-                          "checkerboard rms 0.5/2"])
+                          "checkerboard rms 0.5/2", "blank in the background map only (finite image)"])
 
 
 def cases(tier, seed):
@@ -68,6 +68,12 @@ def realise(snr, variant):
     if variant == 1:
         im = np.where(np.isnan(snr), np.nan, 0.0)
         return im, -np.nan_to_num(snr), np.ones(shape)
+    if variant == 3:
+        # the blank lives in the BACKGROUND map; the image itself is finite there.  (variant 4, a blank in the noise map, is
+        # not enumerated: the property quantifies over noise maps with rms > 0)
+        return np.nan_to_num(snr), np.where(np.isnan(snr), np.nan, 0.0), np.ones(shape)
+    if variant == 4:
+        return np.nan_to_num(snr), np.zeros(shape), np.where(np.isnan(snr), np.nan, 1.0)
     rms = np.where((np.add.outer(np.arange(shape[0]), np.arange(shape[1])) % 2) == 0, 0.5, 2.0)
     return snr * rms, np.zeros(shape), rms
 
@@ -109,7 +115,7 @@ def ev_islands(case, ctx):
         clips = case.get("clips") or [[FLOOD, list(SEEDS)]]
         if np.any(np.abs(np.nan_to_num(snr)) >= min(c[0] for c in clips)):
             ctx.nontrivial_n(1)
-        for variant, (FLOOD_, SEEDS_) in itertools.product((0, 1, 2), clips):
+        for variant, (FLOOD_, SEEDS_) in itertools.product((0, 1, 2, 3) if "N" in alpha and not case.get("clips") else (0, 1, 2), clips):
             im, bkg, rms = realise(snr, variant)
             res = {}
             for seed in SEEDS_:
@@ -141,7 +147,7 @@ def ev_islands(case, ctx):
                 allpix = [p for s, b in obs for p in s]
                 if len(allpix) != len(set(allpix)):
                     ctx.violation("islands overlap (snr=%s)" % word, "overlap|" + sig)
-                if any(not np.isfinite(im[p]) for p in allpix if 0 <= p[0] < shape[0] and 0 <= p[1] < shape[1]):
+                if any(not np.isfinite((im[p] - bkg[p]) / rms[p]) for p in allpix if 0 <= p[0] < shape[0] and 0 <= p[1] < shape[1]):
                     ctx.violation("blank pixel inside an island (snr=%s)" % word, "blank_member|" + sig)
             if len(res) == 2:
                 hi = set(p for p, b in res[SEEDS_[1]])
